@@ -299,6 +299,41 @@ def run_read(case):
     return {'nt': nt, 'labels': [reader, 'off%%8=%d' % (o % 8), 'aligned-end' if (o + len(exp)) % 8 == 0 else 'mid-byte-end', lenbucket(total)]}
 
 
+# ------------------------------------------------------------------------------------------- large Arrays
+
+ARRAY_BIG_DTYPES = ['uint3', 'int5', 'uint7', 'uint9', 'int11', 'uint13', 'e3m2mxfp', 'hex12', 'bin7', 'uint8', 'floatle32', 'uint24']
+
+
+def enum_array_big(tier):
+    sizes = [(1 << 20) + 5, (2 << 20) + 1] if tier == 'quick' else [(1 << 20) - 1, (1 << 20) + 5, (2 << 20) + 1, (8 << 20) + 3, (9 << 20) + 7, (16 << 20) + 11]
+    for dt in ARRAY_BIG_DTYPES:
+        for nbytes in sizes:
+            yield {'dtype': dt, 'nbytes': nbytes}
+
+
+def run_array_big(case):
+    """Array.tofile / tobytes of one to a few MiB with item sizes that do not divide a power-of-two block: the bytes of the data, in order, padded once at the end"""
+    bs = bitstring_module()
+    nbytes = case['nbytes']
+    data = (bytes(range(3, 254)) * (nbytes // 251 + 1))[:nbytes]
+    a = bs.Array(case['dtype'], data)
+    require(len(a.data) == 8 * nbytes, 'Array built from bytes does not hold exactly those bytes', got=len(a.data), expected=8 * nbytes)
+    f = io.BytesIO()
+    a.tofile(f)
+    v = f.getvalue()
+    require(len(v) == nbytes, 'Array.tofile() of a large Array wrote the wrong number of bytes (padding inside the data?)', got=len(v), expected=nbytes, case=case)
+    require(v == data, 'Array.tofile() of a large Array wrote different bytes', first_difference=next((i for i in range(nbytes) if v[i] != data[i]), None), case=case)
+    require(a.tobytes() == data, 'Array.tobytes() of a large Array differs from its data', case=case)
+    # with trailing bits: one zero padding at the very end only
+    a.data.append('0b101')
+    f = io.BytesIO()
+    a.tofile(f)
+    v = f.getvalue()
+    require(v == data + b'\xa0' and a.tobytes() == v, 'Array.tofile()/tobytes() of a large Array with trailing bits is not the data padded once at the end', got_len=len(v), expected_len=nbytes + 1, case=case)
+    del v, f, a, data
+    return {'nt': True, 'labels': ['array-big', case['dtype']]}
+
+
 def selftest():
     assert ref_bytes('1') == b'\x80' and ref_bytes('') == b'' and ref_bytes('0000000011') == b'\x00\xc0'
     bs = bitstring_module()
@@ -310,5 +345,7 @@ SUBCHECKS = [
     Sub('C17.tofile_chunk_boundary_hook', run_chunks, enum=enum_chunks,
         enum_exhaustive_note='chunk sizes 8/64/4096 bits (hook) x k in {1,2,3} chunks x offsets -9..9 bits around k*chunk'),
     Sub('C17.tofile_real_chunk_boundary', run_real, enum=enum_real, enum_exhaustive_note='data just above the real 100 MiB chunk size (quick: 1 size; thorough: 5 sizes incl. 2 chunks) without the hook'),
+    Sub('C17.array_tofile_large', run_array_big, enum=enum_array_big,
+        enum_exhaustive_note='12 item dtypes x data of 1-2 MiB (thorough: up to 16 MiB) + a few bytes, with and without trailing bits; not exhaustive over sizes'),
     Sub('C17.readback_window', run_read, strategy=read_case, examples={'quick': 8000, 'thorough': 120000}, ambient=('lsb0', 'bytealigned')),
 ]
